@@ -56,6 +56,7 @@ type DAW struct {
 	Nonce   []byte   `json:",omitempty"` // apple nonce extension value
 	HasNonc bool     `json:",omitempty"` // the nonce extension is present
 	TPMVer  string   `json:",omitempty"` // tpm: value of "ver" ("" = absent)
+	TPM     *TPMSpec `json:",omitempty"` // tpm: build certInfo / pubArea / sig (nil: statement has ver and x5c only)
 
 	facts string // model fields, filled by build
 }
@@ -88,6 +89,7 @@ func initAttest() {
 		panic(err)
 	}
 	_, ed, _ := ed25519.GenerateKey(rand.Reader)
+	initTPM()
 	attKeys["p256"], attKeys["p384"], attKeys["rsa"], attKeys["ed25519"] = p256, p384, rk, ed
 }
 
@@ -256,7 +258,9 @@ func (w *DAW) payload() []byte {
 			stmt["sig"] = b
 		}
 	case "tpm":
-		if w.TPMVer != "" {
+		if w.TPM != nil {
+			stmt = w.TPM.statement(w, sha(w.Signed))
+		} else if w.TPMVer != "" {
 			stmt["ver"] = w.TPMVer
 		}
 	}
@@ -435,17 +439,7 @@ func (w *DAW) extract(k *Case, payload []byte, prov *provisioner.ACME) string {
 		return head + fmt.Sprintf(" fpne=%s facts=step x5c=%s sigp=%s sigc=%s key=%s signed=%s sigv=%s fpok=%s serial=%s",
 			c.B(fpOk), x, c.B(sigPresent), c.B(sigCbor), key, c.X(w.Signed), c.B(sigv), c.B(fpOk), serial)
 	case "tpm":
-		// Only structural failures are generated: every synthetic AK certificate has a non-empty
-		// subject and no TPM SAN, so a chain-valid certificate stops at "AK certificate is not valid".
-		pre := "bad"
-		ver, _ := att.AttStatement["ver"].(string)
-		if ver == "2.0" {
-			x := extractX5c(att.AttStatement, nil)
-			if x.present && x.n > 0 && x.leafOk && x.restOk && !rootsOk {
-				pre = "noroots"
-			}
-		}
-		return head + " fpne=0 facts=tpm pre=" + pre + " extra=x postbad=0 fpok=0 pids=-"
+		return head + tpmFacts(att.AttStatement, roots, rootsOk)
 	}
 	return head + " fpne=0 facts=none"
 }
@@ -467,6 +461,9 @@ var daMuts = []string{
 	"payload-notcbor", "payload-cborwrongtype", "payload-noattobj", "authz-missing", "authz-dbfail",
 	"nonce-absent", "nonce-other-token", "nonce-keyauth", "nonce-empty", "nonce-trunc", "udid-only", "serial-only", "ids-none", "ids-swapped-case",
 	"tpm-nover", "tpm-ver1", "tpm-nox5c", "tpm-noroots", "tpm-akcert",
+	"tpm-exact", "tpm-exact", "tpm-exact", "tpm-no-pids", "tpm-other-pid", "tpm-two-pids", "tpm-other-thumb", "tpm-other-token", "tpm-token-only",
+	"tpm-sig-flip", "tpm-other-name", "tpm-subject", "tpm-no-hw", "tpm-no-eku", "tpm-magic", "tpm-restricted", "tpm-alg-bad", "tpm-alg-es256",
+	"tpm-pubarea-empty", "tpm-wrongca", "tpm-full-noroots", "tpm-disabled",
 }
 
 func genDA(r *c.Rng, k *Case) {
@@ -570,6 +567,35 @@ func genDA(r *c.Rng, k *Case) {
 		w.Format, w.TPMVer, w.Roots = "tpm", "2.0", "none"
 	case "tpm-akcert":
 		w.Format, w.TPMVer = "tpm", "2.0"
+	case "tpm-exact", "tpm-no-pids", "tpm-other-pid", "tpm-two-pids", "tpm-other-thumb", "tpm-other-token", "tpm-token-only", "tpm-sig-flip", "tpm-other-name",
+		"tpm-subject", "tpm-no-hw", "tpm-no-eku", "tpm-magic", "tpm-restricted", "tpm-alg-bad", "tpm-alg-es256", "tpm-pubarea-empty", "tpm-wrongca",
+		"tpm-full-noroots", "tpm-disabled":
+		w.Format, w.TPMVer = "tpm", "2.0"
+		w.TPM = &TPMSpec{PIDs: []string{k.Value}}
+		k.Mut = "tpm:" + strings.TrimPrefix(m, "tpm-")
+		switch m {
+		case "tpm-no-pids":
+			w.TPM.PIDs = nil
+		case "tpm-other-pid":
+			w.TPM.PIDs = []string{"other-" + k.Value}
+		case "tpm-two-pids":
+			w.TPM.PIDs = []string{"other-" + k.Value, k.Value}
+		case "tpm-other-thumb":
+			w.Signed = expectedKeyAuth(k.Token, otherAcct(r, k.Acct))
+		case "tpm-other-token":
+			w.Signed = expectedKeyAuth(genToken(r), k.Acct)
+		case "tpm-token-only":
+			w.Signed = k.Token
+		case "tpm-wrongca":
+			w.X5c = "wrongca"
+		case "tpm-full-noroots":
+			w.Roots = "none"
+		case "tpm-disabled":
+			w.Enabled = []string{"step"}
+		case "tpm-exact":
+		default:
+			w.TPM.Mut = strings.TrimPrefix(m, "tpm-")
+		}
 	}
 	// second-order: now and then combine with a key type
 	if r.Chance(1, 6) && w.Key == "p256" {
@@ -594,6 +620,16 @@ func cornerDA() []*Case {
 	// D14 (apple half): no nonce extension at all — nothing ties the attestation to this challenge
 	out = append(out, &Case{Op: "validate", Typ: "da", Status: "pending", Token: tok, Value: "udid-1", Acct: 0, Mut: "apple:nonce-absent",
 		DA: &DAW{Format: "apple", Roots: "ca", X5c: "ok", Key: "p256", ASerial: "sn-1", AUDID: "udid-1"}})
+	// nil-error panic: P-384 attestation key; serial extension with trailing bytes
+	out = append(out, &Case{Op: "validate", Typ: "da", Status: "pending", Token: tok, Value: "12345678", Acct: 0, Mut: "step:key-p384",
+		DA: &DAW{Format: "step", Roots: "ca", X5c: "ok", Key: "p384", Sig: "ok", Signed: expectedKeyAuth(tok, 0), Serial: "12345678"}})
+	out = append(out, &Case{Op: "validate", Typ: "da", Status: "pending", Token: tok, Value: "12345678", Acct: 0, Mut: "step:serial-trailing",
+		DA: &DAW{Format: "step", Roots: "ca", X5c: "ok", Key: "p256", Sig: "ok", Signed: expectedKeyAuth(tok, 0), Serial: "trailing"}})
+	// D14 (tpm half): the AK certificate lists no permanent identifier at all
+	out = append(out, &Case{Op: "validate", Typ: "da", Status: "pending", Token: tok, Value: "any-device-id", Acct: 0, Mut: "tpm:no-pids",
+		DA: &DAW{Format: "tpm", TPMVer: "2.0", Roots: "ca", X5c: "ok", Signed: expectedKeyAuth(tok, 0), TPM: &TPMSpec{}}})
+	out = append(out, &Case{Op: "validate", Typ: "da", Status: "pending", Token: tok, Value: "device-1", Acct: 3, Mut: "tpm:exact",
+		DA: &DAW{Format: "tpm", TPMVer: "2.0", Roots: "ca", X5c: "ok", Signed: expectedKeyAuth(tok, 3), TPM: &TPMSpec{PIDs: []string{"device-1"}}}})
 	// apple with the right nonce, presented under a different account key: the nonce binds the token only
 	out = append(out, &Case{Op: "validate", Typ: "da", Status: "pending", Token: tok, Value: "udid-1", Acct: 3, Mut: "apple:any-account",
 		DA: &DAW{Format: "apple", Roots: "ca", X5c: "ok", Key: "p256", ASerial: "sn-1", AUDID: "udid-1", HasNonc: true, Nonce: sha(tok)}})
